@@ -8,6 +8,7 @@ from structlog import get_logger
 from . import atoms
 from .ode import ODE
 from . import sympytools
+from . import _verif
 from enum import Enum
 
 
@@ -239,6 +240,16 @@ def hybrid_rush_larsen(
         expr_diff = x.expr.diff(x.state.symbol)
         state_is_stiff = x.state.name in stiff_states_set
 
+        if _verif.enabled():
+            _verif.emit(
+                "SchemeDecide",
+                scheme="hybrid_rush_larsen",
+                state=x.state.name,
+                stiff=state_is_stiff,
+                diff_is_zero=bool(expr_diff.is_zero),
+                rush_larsen=not (not state_is_stiff or bool(expr_diff.is_zero)),
+                delta=delta,
+            )
         if not state_is_stiff or expr_diff.is_zero:
             # Use forward Euler
             eqs.append(
@@ -332,6 +343,16 @@ def generalized_rush_larsen(
             continue
 
         expr_diff = x.expr.diff(x.state.symbol)
+        if _verif.enabled():
+            _verif.emit(
+                "SchemeDecide",
+                scheme="generalized_rush_larsen",
+                state=x.state.name,
+                stiff=True,
+                diff_is_zero=bool(expr_diff.is_zero),
+                rush_larsen=not bool(expr_diff.is_zero),
+                delta=delta,
+            )
 
         if expr_diff.is_zero:
             # Use forward Euler
